@@ -204,7 +204,8 @@ def _main(mod, modname, prop, tier, seed, only, workdir, t0, no_canaries):
         except Exception as ex:  # noqa: BLE001
             val_errs = ["validate crashed: %s: %s" % (type(ex).__name__, ex), traceback.format_exc()[-1200:]]
         for e in val_errs:
-            inconclusive.append("model-validation: %s" % e)
+            if not e.startswith("VIOLATION:"):
+                inconclusive.append("model-validation: %s" % e)
     # 2. symbolic jobs
     results = run_jobs(modname, jobs, known, budget, workers)
     extra = {}
@@ -262,6 +263,13 @@ def _main(mod, modname, prop, tier, seed, only, workdir, t0, no_canaries):
             else:
                 inconclusive.append("%s: known finding %s: solver instance did not reproduce (model %s)"
                                     % (r["label"], kid, json.dumps(f["model"], default=str)[:300]))
+    for n_, e in enumerate(x for x in val_errs if x.startswith("VIOLATION:")):
+        # the unmodified package failed the independent concrete oracle during model validation: a real violation,
+        # found by a concrete run (not by the solver); reported because a true alarm must never be lost
+        path = os.path.join(ROOT, "evidence", "replays", "%s-v%d.json" % (prop, n_))
+        with open(path, "w") as fd:
+            json.dump({"property": prop, "job": "model-validation", "found_by": "concrete validation run", "detail": e}, fd, indent=1)
+        violations.append(({"obligation": "validation", "msg": e[:300], "model": {}}, path, "model-validation"))
     # 4. vacuity
     reached = sum(r["stats"].get("checks", 0) for r in results)
     if jobs and reached == 0 and not only:
